@@ -19,7 +19,6 @@ package main
 import (
 	"encoding/binary"
 	"fmt"
-	"math"
 	"os"
 	"sort"
 	"strconv"
@@ -353,6 +352,32 @@ type avcSPSInfo struct {
 	vui, hrd        bool
 	cpbLen, dpbLen  uint64 // ..._length_minus1 of the HRD the SEI parser picks (VCL first)
 	timeOffsetLen   uint64
+	mapUnits        uint64 // PicSizeInMapUnits as avc.ParseSliceHeader recomputes it from the SPS (SPS.picSizeInMapUnits)
+}
+
+// avcPicSizeInMapUnits mirrors the unexported (*avc.SPS).picSizeInMapUnits of /repo (fix 174cc8e)
+func avcPicSizeInMapUnits(s *avc.SPS) uint64 {
+	var fmo uint
+	if s.FrameMbsOnlyFlag {
+		fmo = 1
+	}
+	width, height := s.Width, s.Height
+	if s.FrameCroppingFlag {
+		var cx, cy uint
+		switch s.ChromaFormatIDC {
+		case 0:
+			cx, cy = 1, 2-fmo
+		case 1:
+			cx, cy = 2, 2*(2-fmo)
+		case 2:
+			cx, cy = 2, 2-fmo
+		default:
+			cx, cy = 1, 2-fmo
+		}
+		width += (s.FrameCropLeftOffset + s.FrameCropRightOffset) * cx
+		height += (s.FrameCropTopOffset + s.FrameCropBottomOffset) * cy
+	}
+	return uint64((width / 16) * (height / (16 * (2 - fmo))))
 }
 
 type avcPPSInfo struct {
@@ -506,8 +531,9 @@ func synAvcSPS(f *fw, id uint64) avcSPSInfo {
 	}
 	f.ue("max_num_ref_frames", 16, 1, 2, 4)
 	f.flag("gaps_in_frame_num_value_allowed_flag", 20)
-	f.ue("pic_width_in_mbs_minus1", 1<<16, 19, 79, 119)
-	f.ue("pic_height_in_map_units_minus1", 1<<16, 14, 44, 67)
+	wMbs := f.ue("pic_width_in_mbs_minus1", 1<<16, 19, 79, 119)
+	hMap := f.ue("pic_height_in_map_units_minus1", 1<<16, 14, 44, 67)
+	s.mapUnits = (wMbs + 1) * (hMap + 1) // what the slice parser recomputes from Width / Height / cropping (no wrap for plausible values)
 	s.frameMbsOnly = f.flag("frame_mbs_only_flag", 70)
 	if !s.frameMbsOnly {
 		f.flag("mb_adaptive_frame_field_flag", 50)
@@ -770,11 +796,16 @@ func synAvcSlice(f *fw, ppsID uint64, p avcPPSInfo, s avcSPSInfo) {
 		}
 	}
 	if p.nsg > 0 && p.mapType >= 3 && p.mapType <= 5 {
-		size := p.picSizeMapMinus1 + 1
+		// Ceil(Log2(PicSizeInMapUnits ÷ SliceGroupChangeRate + 1)) bits, ÷ rounded up, PicSizeInMapUnits from the SPS
+		// (/repo 174cc8e; before: pps.PicSizeInMapUnitsMinus1 + 1 and a truncating division)
+		size := s.mapUnits
 		rate := p.changeRateMinus1 + 1
 		if rate != 0 {
-			nb := int(math.Ceil(math.Log2(float64(size/rate + 1))))
-			f.u("slice_group_change_cycle", nb)
+			quot := size / rate
+			if size%rate != 0 {
+				quot++
+			}
+			f.u("slice_group_change_cycle", bits.CeilLog2(uint(quot+1)))
 		}
 	}
 	f.raw(f.r.U64(), f.r.Range(8, 40)) // slice data
@@ -1704,7 +1735,7 @@ func avcSPSInfoOf(s *avc.SPS) avcSPSInfo {
 	i := avcSPSInfo{id: s.ParameterID, chroma: s.ChromaFormatIDC, sepColour: s.SeparateColourPlaneFlag,
 		log2FrameNum: uint64(s.Log2MaxFrameNumMinus4), pocType: uint64(s.PicOrderCntType),
 		log2PocLsb: uint64(s.Log2MaxPicOrderCntLsbMinus4), deltaAlwaysZero: s.DeltaPicOrderAlwaysZeroFlag,
-		frameMbsOnly: s.FrameMbsOnlyFlag}
+		frameMbsOnly: s.FrameMbsOnlyFlag, mapUnits: avcPicSizeInMapUnits(s)}
 	if s.VUI != nil {
 		i.vui = true
 		h := s.VUI.VclHrdParameters
